@@ -58,11 +58,13 @@ theorem deleteLinks_inv {sch : Schema} (x : Inst) : ∀ (ls : List (Nat × Bool 
   | (i, isSrc, ph) :: rest, s, h => by
     have h1 := unrelateAll_inv (sch := sch) x (specAt sch i).rel ph
       (if isSrc then (s.links i).src x else (s.links i).tgt x) s h
-    unfold deleteLinks
-    simp only
-    split
-    · exact deleteLinks_inv x rest _ h1
-    · exact h1
+    rw [deleteLinks]
+    by_cases hc : (unrelateAll sch x (specAt sch i).rel ph
+        (if isSrc then (s.links i).src x else (s.links i).tgt x) s).2 = .ok
+    · simp only [hc, ↓reduceIte]
+      exact deleteLinks_inv x rest _ h1
+    · simp only [hc, ↓reduceIte]
+      exact h1
 
 theorem delete_inv {sch : Schema} {s : State} (h : Inv sch s) (x : Inst) : Inv sch (delete sch s x).1 := by
   unfold delete
@@ -111,5 +113,336 @@ theorem unrelate_reject_atomic {sch : Schema} {s : State} (h : Inv sch s) {x y :
       · exact h'
     simp only [unrelateOn_reject_atomic (h i).1 hexc]
     exact state_links_id s i
+
+end Pyx.Meta
+
+namespace Pyx.Meta
+
+/-! idempotence and undo at state level -/
+
+theorem state_links_upd_upd (s : State) (i : Nat) (l : ALinks) :
+    { ({ s with links := upd s.links i l } : State) with
+        links := upd (upd s.links i l) i (s.links i) } = s := by
+  cases s
+  simp only [State.mk.injEq, true_and, and_true]
+  funext z; by_cases h : z = i <;> simp [upd, h]
+
+/-- relating an already related pair returns ok and changes nothing -/
+theorem relate_idempotent {sch : Schema} {s : State} (h : Inv sch s) {x y : Inst} {r p : String} {i : Nat} {d : Dir}
+    (hf : findLink sch (s.kindOf x) (s.kindOf y) r p = some (i, d))
+    (hrel : (orient d x y).2 ∈ (s.links i).src (orient d x y).1) :
+    relate sch s x y r p = (s, .ok) := by
+  unfold relate
+  simp only [hf, relateOn_idempotent (h i).1 hrel]
+  rw [state_links_id]
+
+/-- a successful unrelate exactly undoes a successful relate of a previously unrelated pair -/
+theorem unrelate_undoes_relate {sch : Schema} {s s' : State} (h : Inv sch s) {x y : Inst} {r p : String}
+    {i : Nat} {d : Dir}
+    (hf : findLink sch (s.kindOf x) (s.kindOf y) r p = some (i, d))
+    (hnew : (orient d x y).2 ∉ (s.links i).src (orient d x y).1)
+    (hr : relate sch s x y r p = (s', .ok)) : unrelate sch s' x y r p = (s, .ok) := by
+  unfold relate at hr
+  simp only [hf] at hr
+  have hr2 : (relateOn (specAt sch i) (s.links i) (orient d x y).1 (orient d x y).2).2 = .ok := by
+    have := congrArg Prod.snd hr; simpa using this
+  have hs' : s' = { s with links := upd s.links i (relateOn (specAt sch i) (s.links i) (orient d x y).1 (orient d x y).2).1 } := by
+    have := congrArg Prod.fst hr; simpa using this.symm
+  have hpair : relateOn (specAt sch i) (s.links i) (orient d x y).1 (orient d x y).2 =
+      ((relateOn (specAt sch i) (s.links i) (orient d x y).1 (orient d x y).2).1, .ok) := by
+    rw [← hr2]
+  have hun := unrelateOn_undoes_relateOn (h i).1 hnew hpair
+  subst hs'
+  unfold unrelate
+  simp only [hf, upd_same, hun]
+  rw [state_links_upd_upd]
+
+/-! instance pools: liveness, delete rejection -/
+
+def PoolInv (s : State) : Prop :=
+  ∀ k, (s.pool k).Nodup ∧ ∀ x ∈ s.pool k, x < s.count ∧ s.kindOf x = k
+
+theorem poolInv_init : PoolInv init := fun _ => ⟨List.nodup_nil, fun _ h => by simp [init] at h⟩
+
+theorem relate_frame (sch : Schema) (s : State) (x y : Inst) (r p : String) :
+    (relate sch s x y r p).1.pool = s.pool ∧ (relate sch s x y r p).1.kindOf = s.kindOf ∧
+    (relate sch s x y r p).1.count = s.count ∧ (relate sch s x y r p).1.idOf = s.idOf := by
+  unfold relate; split <;> simp
+
+theorem unrelate_frame (sch : Schema) (s : State) (x y : Inst) (r p : String) :
+    (unrelate sch s x y r p).1.pool = s.pool ∧ (unrelate sch s x y r p).1.kindOf = s.kindOf ∧
+    (unrelate sch s x y r p).1.count = s.count ∧ (unrelate sch s x y r p).1.idOf = s.idOf := by
+  unfold unrelate; split <;> simp
+
+theorem unrelateAll_frame (sch : Schema) (x : Inst) (r p : String) : ∀ (ys : List Inst) (s : State),
+    (unrelateAll sch x r p ys s).1.pool = s.pool ∧ (unrelateAll sch x r p ys s).1.kindOf = s.kindOf ∧
+    (unrelateAll sch x r p ys s).1.count = s.count ∧ (unrelateAll sch x r p ys s).1.idOf = s.idOf
+  | [], s => ⟨rfl, rfl, rfl, rfl⟩
+  | y :: ys, s => by
+    have h1 := unrelate_frame sch s x y r p
+    rw [unrelateAll]
+    by_cases hc : (unrelate sch s x y r p).2 = .ok
+    · simp only [hc, ↓reduceIte]
+      have h2 := unrelateAll_frame sch x r p ys (unrelate sch s x y r p).1
+      exact ⟨h2.1.trans h1.1, h2.2.1.trans h1.2.1, h2.2.2.1.trans h1.2.2.1, h2.2.2.2.trans h1.2.2.2⟩
+    · simp only [hc, ↓reduceIte]; exact h1
+
+theorem deleteLinks_frame (sch : Schema) (x : Inst) : ∀ (ls : List (Nat × Bool × String)) (s : State),
+    (deleteLinks sch x ls s).1.pool = s.pool ∧ (deleteLinks sch x ls s).1.kindOf = s.kindOf ∧
+    (deleteLinks sch x ls s).1.count = s.count ∧ (deleteLinks sch x ls s).1.idOf = s.idOf
+  | [], s => ⟨rfl, rfl, rfl, rfl⟩
+  | (i, isSrc, ph) :: rest, s => by
+    have h1 := unrelateAll_frame sch x (specAt sch i).rel ph
+      (if isSrc then (s.links i).src x else (s.links i).tgt x) s
+    rw [deleteLinks]
+    by_cases hc : (unrelateAll sch x (specAt sch i).rel ph
+        (if isSrc then (s.links i).src x else (s.links i).tgt x) s).2 = .ok
+    · simp only [hc, ↓reduceIte]
+      have h2 := deleteLinks_frame sch x rest (unrelateAll sch x (specAt sch i).rel ph
+        (if isSrc then (s.links i).src x else (s.links i).tgt x) s).1
+      exact ⟨h2.1.trans h1.1, h2.2.1.trans h1.2.1, h2.2.2.1.trans h1.2.2.1, h2.2.2.2.trans h1.2.2.2⟩
+    · simp only [hc, ↓reduceIte]; exact h1
+
+/-- deleting an instance that is not in its pool (never created, or already deleted) is rejected
+    with DeleteException and changes nothing -/
+theorem delete_dead_rejected (sch : Schema) (s : State) (x : Inst) (h : ¬ live s x) :
+    delete sch s x = (s, .deleteExc) := by
+  unfold delete
+  have : ¬ (x ∈ s.pool (s.kindOf x) ∧ x < s.count) := fun hc => h ⟨hc.2, hc.1⟩
+  simp [this]
+
+/-- after an accepted delete the instance is dead: a repeated delete is rejected -/
+theorem delete_makes_dead {sch : Schema} {s : State} (hp : PoolInv s) {x : Inst} (hl : live s x) :
+    ¬ live (delete sch s x).1 x := by
+  unfold delete
+  have hc : x ∈ s.pool (s.kindOf x) ∧ x < s.count := ⟨hl.2, hl.1⟩
+  simp only [hc, and_self, ↓reduceIte]
+  have hf := deleteLinks_frame sch x (linksOf sch (s.kindOf x))
+    { s with pool := upd s.pool (s.kindOf x) ((s.pool (s.kindOf x)).erase x) }
+  intro hlive
+  have h2 := hlive.2
+  rw [hf.1, hf.2.1] at h2
+  simp only [upd_same] at h2
+  exact ((hp (s.kindOf x)).1.mem_erase_iff.1 h2).1 rfl
+
+theorem delete_twice_rejected {sch : Schema} {s : State} (hp : PoolInv s) (x : Inst) :
+    delete sch (delete sch s x).1 x = ((delete sch s x).1, .deleteExc) := by
+  by_cases hl : live s x
+  · exact delete_dead_rejected sch _ x (delete_makes_dead hp hl)
+  · rw [delete_dead_rejected sch s x hl]
+    exact delete_dead_rejected sch s x hl
+
+theorem new_poolInv {s : State} (hp : PoolInv s) (k : Kind) (hid : Bool) : PoolInv (new s k hid).1 := by
+  intro k'
+  have hfresh : ∀ k'', s.count ∉ s.pool k'' := fun k'' hm => by
+    exact absurd ((hp k'').2 _ hm).1 (Nat.lt_irrefl _)
+  unfold new
+  simp only
+  by_cases hk : k' = k
+  · subst hk
+    simp only [upd_same]
+    refine ⟨?_, ?_⟩
+    · rw [List.nodup_append]
+      refine ⟨(hp k').1, by simp, ?_⟩
+      intro a ha b hb
+      simp at hb; subst hb
+      intro hab; subst hab; exact hfresh k' ha
+    · intro x hx
+      simp only [List.mem_append, List.mem_singleton] at hx
+      rcases hx with hx | hx
+      · have := (hp k').2 x hx
+        refine ⟨Nat.lt_succ_of_lt this.1, ?_⟩
+        have hne : x ≠ s.count := Nat.ne_of_lt this.1
+        simp [upd, hne, this.2]
+      · subst hx; simp [upd]
+  · simp only [upd, hk, ↓reduceIte]
+    refine ⟨(hp k').1, ?_⟩
+    intro x hx
+    have := (hp k').2 x hx
+    refine ⟨Nat.lt_succ_of_lt this.1, ?_⟩
+    have hne : x ≠ s.count := Nat.ne_of_lt this.1
+    simp [hne, this.2]
+
+theorem delete_poolInv {sch : Schema} {s : State} (hp : PoolInv s) (x : Inst) : PoolInv (delete sch s x).1 := by
+  unfold delete
+  split
+  · have hf := deleteLinks_frame sch x (linksOf sch (s.kindOf x))
+      { s with pool := upd s.pool (s.kindOf x) ((s.pool (s.kindOf x)).erase x) }
+    intro k
+    rw [hf.1, hf.2.1, hf.2.2.1]
+    by_cases hk : k = s.kindOf x
+    · subst hk
+      simp only [upd_same]
+      exact ⟨(hp _).1.erase x, fun z hz => (hp _).2 z (List.mem_of_mem_erase hz)⟩
+    · simp only [upd, hk, ↓reduceIte]; exact hp k
+  · exact hp
+
+theorem step_poolInv {sch : Schema} {s : State} (hp : PoolInv s) (op : Op) : PoolInv (step sch s op).1 := by
+  cases op with
+  | new k hid => exact new_poolInv hp k hid
+  | relate x y r p =>
+    have hf := relate_frame sch s x y r p
+    intro k; simp only [step]; rw [hf.1, hf.2.1, hf.2.2.1]; exact hp k
+  | unrelate x y r p =>
+    have hf := unrelate_frame sch s x y r p
+    intro k; simp only [step]; rw [hf.1, hf.2.1, hf.2.2.1]; exact hp k
+  | delete x => exact delete_poolInv hp x
+
+theorem run_poolInv_from (sch : Schema) : ∀ (ops : List Op) (s : State), PoolInv s →
+    PoolInv (ops.foldl (fun s op => (step sch s op).1) s)
+  | [], s, h => h
+  | op :: ops, s, h => run_poolInv_from sch ops _ (step_poolInv h op)
+
+end Pyx.Meta
+
+namespace Pyx.Meta
+
+/-! `_find_link` is sound: the association it returns has the requested number, connects the two
+    kinds in the direction that makes the pair well-typed, and carries the phrase -/
+
+theorem findLinkFrom_sound {k1 k2 : Kind} {rel phrase : String} : ∀ (sch : Schema) (n i : Nat) (d : Dir),
+    findLinkFrom k1 k2 rel phrase n sch = some (i, d) →
+    ∃ a, sch[i - n]? = some a ∧ n ≤ i ∧ a.rel = rel ∧
+      (d = .fwd → a.tgtKind = k1 ∧ a.srcKind = k2 ∧ a.tgtPhrase = phrase) ∧
+      (d = .rev → a.srcKind = k1 ∧ a.tgtKind = k2 ∧ a.srcPhrase = phrase)
+  | [], n, i, d, h => by simp [findLinkFrom] at h
+  | a :: rest, n, i, d, h => by
+    unfold findLinkFrom at h
+    split at h
+    · obtain ⟨b, hb, hn, hrest⟩ := findLinkFrom_sound rest (n + 1) i d h
+      refine ⟨b, ?_, by omega, hrest⟩
+      have : i - n = (i - (n + 1)) + 1 := by omega
+      rw [this]; simpa using hb
+    · rename_i hrel
+      have hrel' : a.rel = rel := by
+        apply Classical.byContradiction; intro hc; exact hrel hc
+      split at h
+      · rename_i hc
+        cases h
+        exact ⟨a, by simp, Nat.le_refl _, hrel', fun _ => hc, fun hd => nomatch hd⟩
+      · split at h
+        · rename_i hc
+          cases h
+          exact ⟨a, by simp, Nat.le_refl _, hrel', (fun hd => nomatch hd), fun _ => hc⟩
+        · obtain ⟨b, hb, hn, hrest⟩ := findLinkFrom_sound rest (n + 1) i d h
+          refine ⟨b, ?_, by omega, hrest⟩
+          have : i - n = (i - (n + 1)) + 1 := by omega
+          rw [this]; simpa using hb
+
+/-! only live instances are reachable -/
+
+def LiveOnly (s : State) : Prop := ∀ i x y, y ∈ (s.links i).src x → live s x ∧ live s y
+
+theorem liveOnly_init : LiveOnly init := fun i x y h => by simp [init, emptyLinks] at h
+
+theorem live_congr {s s' : State} (h1 : s'.pool = s.pool) (h2 : s'.kindOf = s.kindOf) (h3 : s'.count = s.count)
+    (x : Inst) : live s' x ↔ live s x := by
+  unfold live; rw [h1, h2, h3]
+
+theorem relate_liveOnly {sch : Schema} {s : State} (hl : LiveOnly s) {x y : Inst} {r p : String}
+    (hx : live s x) (hy : live s y) : LiveOnly (relate sch s x y r p).1 := by
+  have hf := relate_frame sch s x y r p
+  intro j z w hm
+  rw [live_congr hf.1 hf.2.1 hf.2.2.1, live_congr hf.1 hf.2.1 hf.2.2.1]
+  unfold relate at hm
+  split at hm
+  · exact hl j z w hm
+  · rename_i i d _
+    simp only at hm
+    by_cases hj : j = i
+    · subst hj
+      simp only [upd_same] at hm
+      rcases relateOn_out (specAt sch j) (s.links j) (orient d x y).1 (orient d x y).2 with ho | ho
+      · obtain ⟨s', t', hs, _, hl'⟩ := relateOn_ok
+          (l' := (relateOn (specAt sch j) (s.links j) (orient d x y).1 (orient d x y).2).1) (by rw [← ho])
+        rw [hl'] at hm
+        rcases (connect_mem hs z w).1 hm with hold | ⟨hz, hw⟩
+        · exact hl j z w hold
+        · subst hz hw
+          cases d <;> simp only [orient] <;> exact ⟨by assumption, by assumption⟩
+      · by_cases hsym : Sym (s.links j)
+        · rw [relateOn_reject_atomic hsym ho] at hm; exact hl j z w hm
+        · -- without symmetry the rejected relate may keep the first half; both ends are live anyway
+          unfold relateOn at hm
+          split at hm
+          · exact hl j z w hm
+          · rename_i s' hs
+            split at hm
+            · split at hm
+              · rename_i s'' hd
+                simp only at hm
+                have hsub : ∀ a b, b ∈ s'' a → b ∈ s' a := by
+                  intro a b hb
+                  unfold disconnect at hd
+                  split at hd
+                  · cases hd
+                    by_cases ha : a = (orient d x y).1
+                    · subst ha; simp only [upd_same] at hb; exact List.mem_of_mem_erase hb
+                    · simpa [upd, ha] using hb
+                  · cases hd
+                rcases (connect_mem hs z w).1 (hsub z w hm) with hold | ⟨hz, hw⟩
+                · exact hl j z w hold
+                · subst hz hw
+                  cases d <;> simp only [orient] <;> exact ⟨by assumption, by assumption⟩
+              · simp only at hm
+                rcases (connect_mem hs z w).1 hm with hold | ⟨hz, hw⟩
+                · exact hl j z w hold
+                · subst hz hw
+                  cases d <;> simp only [orient] <;> exact ⟨by assumption, by assumption⟩
+            · rename_i t' ht
+              simp only at hm
+              rcases (connect_mem hs z w).1 hm with hold | ⟨hz, hw⟩
+              · exact hl j z w hold
+              · subst hz hw
+                cases d <;> simp only [orient] <;> exact ⟨by assumption, by assumption⟩
+    · simp only [upd, hj, ↓reduceIte] at hm; exact hl j z w hm
+
+theorem unrelate_liveOnly {sch : Schema} {s : State} (hl : LiveOnly s) (x y : Inst) (r p : String) :
+    LiveOnly (unrelate sch s x y r p).1 := by
+  have hf := unrelate_frame sch s x y r p
+  intro j z w hm
+  rw [live_congr hf.1 hf.2.1 hf.2.2.1, live_congr hf.1 hf.2.1 hf.2.2.1]
+  unfold unrelate at hm
+  split at hm
+  · exact hl j z w hm
+  · rename_i i d _
+    simp only at hm
+    by_cases hj : j = i
+    · subst hj
+      simp only [upd_same] at hm
+      apply hl j z w
+      unfold unrelateOn at hm
+      have hsub : ∀ (m m' : Inst → List Inst) (a b : Inst), disconnect m a b = some m' →
+          ∀ u v, v ∈ m' u → v ∈ m u := by
+        intro m m' a b hd u v hv
+        unfold disconnect at hd
+        split at hd
+        · cases hd
+          by_cases ha : u = a
+          · subst ha; simp only [upd_same] at hv; exact List.mem_of_mem_erase hv
+          · simpa [upd, ha] using hv
+        · cases hd
+      split at hm
+      · exact hm
+      · rename_i s' hs
+        split at hm
+        · exact hsub _ _ _ _ hs z w hm
+        · exact hsub _ _ _ _ hs z w hm
+    · simp only [upd, hj, ↓reduceIte] at hm; exact hl j z w hm
+
+theorem new_liveOnly {s : State} (hp : PoolInv s) (hl : LiveOnly s) (k : Kind) (hid : Bool) :
+    LiveOnly (new s k hid).1 := by
+  intro j z w hm
+  have hmono : ∀ u, live s u → live (new s k hid).1 u := by
+    intro u hu
+    have hne : u ≠ s.count := Nat.ne_of_lt hu.1
+    unfold live new
+    simp only [upd, hne, ↓reduceIte]
+    refine ⟨Nat.lt_succ_of_lt hu.1, ?_⟩
+    by_cases hk : s.kindOf u = k
+    · subst hk; simp [hu.2]
+    · simp [hk, hu.2]
+  have := hl j z w (by simpa [new] using hm)
+  exact ⟨hmono _ this.1, hmono _ this.2⟩
 
 end Pyx.Meta
